@@ -37,7 +37,8 @@ RULE = ("(a) configurations = processes {1,2,3(,4)} x file layouts (1-3 "
         "periods x bundle x output x {1, 2} processes on the default "
         "schedule (quick: three bundle/output/process combinations per "
         "period; fileset output with 2 processes goes through "
-        "Collocations.search), plus real-multiprocessing runs. evaluations = executions; "
+        "Collocations.search), 6 two-day layouts with max_interval 1 day / "
+        "26 h, plus real-multiprocessing runs. evaluations = executions; "
         "non-trivial = an execution with >= 1 deviation, or (b) a case with "
         ">= 1 collocation across a file boundary.")
 ASSUMPTIONS = [
@@ -635,6 +636,7 @@ PERIODS = {
     "cut": (T0 + SLOT + dt.timedelta(minutes=5),
             T0 + 4 * SLOT + dt.timedelta(minutes=5)),
     "empty": (T0 + 20 * SLOT, T0 + 21 * SLOT),
+    "long": (T0 - dt.timedelta(minutes=1), T0 + 160 * SLOT),
 }
 
 
@@ -645,47 +647,67 @@ def input_cases(tier):
             yield ai, a, bi, b
 
 
+# max_interval of a day and more (the days of a timedelta are not in its
+# .seconds): two files 143 / 150 slots apart whose only points collocate
+# under "1 day" / 26 h, in both roles, next to a pair that overlaps
+LONG_CASES = [
+    ([[0]], [[143]], 1440), ([[143]], [[0]], 1440),
+    ([[0]], [[150]], 1560), ([[150]], [[0]], 1560),
+    ([[0], [150]], [[0], [150]], 1560), ([[0], [143]], [[143]], 1440),
+]
+
+
+def one_input_case(res, world, a, b, mi, pname, bundle, output, processes):
+    start, end = PERIODS[pname]
+    cfg = dict(layout=None, mi=mi, bundle=bundle, output=output, skip=False,
+               start=start, end=end,
+               via_search=(output == "fileset" and processes == 2))
+    exp = brute_force(world, mi, start, end)
+    res.case(nontrivial=bool(exp) and (len(a) > 1 or len(b) > 1
+                                       or pname == "long"))
+    obs = run_default(world, cfg, processes)
+    bad = judge(world, cfg, processes, obs)
+    if bad is not None:
+        res.violation(
+            bad[0], dict(kind="inputs", a=a, b=b, mi=mi, period=pname,
+                         bundle=bundle, output=output, processes=processes,
+                         via_search=cfg["via_search"]),
+            bad[1], bad[2])
+    return (a, b, mi, pname, bundle, output, processes)
+
+
 def run_inputs(res, shard):
     _, tier, part, nparts = shard
     root = driver.fresh_dir("c05b")
-    cases = list(input_cases(tier))[part::nparts]
     last = None
+    if part == "long":
+        for k, (a, b, mi) in enumerate(LONG_CASES):
+            world = World(os.path.join(root, "long%d" % k), dict(A=a, B=b))
+            for bundle, output, processes in [
+                    (None, "memory", 1), ("primary", "memory", 2),
+                    ("daily", "fileset", 2), (None, "fileset", 1)]:
+                last = one_input_case(res, world, a, b, mi, "long", bundle,
+                                      output, processes)
+        cases = []
+    else:
+        cases = list(input_cases(tier))[part::nparts]
     for ai, a, bi, b in cases:
         world = World(os.path.join(root, "a%db%d" % (ai, bi)),
                       dict(A=a, B=b))
-        ref = {}
         for mi in (5, 15):
-            for pname, (start, end) in PERIODS.items():
+            for pname in ("all", "cut", "empty"):
                 if tier == "quick":
                     variants = [(None, "memory", 1), ("primary", "memory", 2),
                                 ("daily", "fileset", 2)]
                     if pname == "empty":
                         variants = variants[:1] if mi == 5 else []
                 else:
-                    variants = [(b, o, k) for b in (None, "primary", "daily")
+                    variants = [(b_, o, k) for b_ in (None, "primary", "daily")
                                 for o in ("memory", "fileset")
                                 for k in (1, 2)]
                 for bundle, output, processes in variants:
-                    if True:
-                        cfg = dict(layout=None, mi=mi, bundle=bundle,
-                                   output=output, skip=False, start=start,
-                                   end=end,
-                                   via_search=(output == "fileset"
-                                               and processes == 2))
-                        exp = brute_force(world, mi, start, end)
-                        res.case(nontrivial=bool(exp) and
-                                 (len(a) > 1 or len(b) > 1))
-                        obs = run_default(world, cfg, processes)
-                        bad = judge(world, cfg, processes, obs)
-                        last = (a, b, mi, pname, bundle, output, processes)
-                        if bad is not None:
-                            res.violation(
-                                bad[0], dict(kind="inputs", a=a, b=b, mi=mi,
-                                             period=pname, bundle=bundle,
-                                             output=output,
-                                             processes=processes,
-                                             via_search=cfg["via_search"]),
-                                bad[1], bad[2])
+                    last = one_input_case(res, world, a, b, mi, pname, bundle,
+                                          output, processes)
     if last:
         res.sample(dict(kind="inputs", A_files=last[0], B_files=last[1],
                         max_interval_min=last[2], period=last[3],
@@ -820,6 +842,7 @@ def shards(tier, seed):
     n = 48 if tier == "quick" else 128
     for p in range(n):
         out.append(("inputs", tier, p, n))
+    out.append(("inputs", tier, "long", n))
     out.append(("real", tier))
     return out
 
